@@ -348,6 +348,7 @@ def run(ctx: Ctx) -> None:
     r03_4(ctx, taint, closure, sinks, link_sinks, roots)
     r03_5(ctx, closure)
     r03_6(ctx, roots)
+    r03_7(ctx, closure)
 
 
 def _expand_at(f: Func, e: ast.AST, at: ast.AST, depth: int = 5) -> ast.AST:
@@ -660,3 +661,50 @@ def r03_5(ctx: Ctx, closure) -> None:
         is_dir = any(pol and isinstance(cond, ast.Attribute) and cond.attr == "is_directory" for cond, pol in facts)
         ctx.check(not_link or is_dir, "R03.5", ex, a, "post-pass (utime/chmod) list excludes link members",
                   "a member that may be a symbolic link is queued for the utime/chmod post-pass: both follow the link and re-time / re-mode its target")
+
+
+FS_STATE_QUERIES = {"realpath", "resolve", "lstat", "stat", "exists", "lexists", "is_symlink", "islink", "readlink", "is_dir", "isdir", "is_file", "isfile", "samefile", "is_junction"}
+MEMO_DECORATORS = {"lru_cache", "cache", "cached_property", "memoize", "memoized"}
+
+
+def r03_7(ctx: Ctx, closure) -> None:
+    """what the file system says is asked anew every time: extraction itself changes it (a member is a file when it is checked and a link
+    after a later member replaced it).  No function reachable from extraction that consults the file system (realpath, lstat, exists,
+    is_symlink, ...) - directly or through a helper of the package - carries a memoising decorator (functools.lru_cache / cache /
+    cached_property): its second answer would describe the tree as it was."""
+    memo: Dict[str, bool] = {}
+
+    def consults(g: Func, depth: int = 3) -> bool:
+        if g.qname in memo:
+            return memo[g.qname]
+        memo[g.qname] = False
+        r = False
+        for c in q.calls(g):
+            if attr_tail(c) in FS_STATE_QUERIES or (isinstance(c.func, ast.Name) and c.func.id in FS_STATE_QUERIES):
+                r = True
+                break
+            if depth > 0:
+                for t in (ctx.res.site_of(g, c).targets if ctx.res.site_of(g, c) is not None else []):
+                    if consults(t, depth - 1):
+                        r = True
+                        break
+            if r:
+                break
+        memo[g.qname] = r
+        return r
+
+    n = 0
+    for fq, f in closure.items():
+        decos = getattr(f.node, "decorator_list", [])
+        if not consults(f):
+            continue
+        n += 1
+        if not decos:
+            ctx.ok("R03.7", f"{f.qname}: consults the file system, no decorator")
+        for d in decos:
+            names = {x.attr if isinstance(x, ast.Attribute) else x.id for x in ast.walk(d) if isinstance(x, (ast.Attribute, ast.Name))}
+            ctx.check(not (names & MEMO_DECORATORS), "R03.7", f, d, f"{f.qname} is not memoised",
+                      f"{f.qname} consults the file system and is memoised (`@{norm(d)}`): a path that was checked while it was a plain file is trusted after a later member replaced it by a "
+                      "link (or a directory by a link), so the time/mode pass or a later member re-times, re-modes, overwrites or creates a file outside the destination",
+                      construct=f"memoised {f.name}")
+    ctx.floor("R03.7", n, 4, "functions in closure(extract) that consult the file system")
